@@ -187,7 +187,7 @@ def run_case(ctx, kind_, idx):
     x, y_arg, y = R.narrow_series(rng, x, y, meta)
     info = R.brief(strat, x, y, n, kw, meta)
     try:
-        with fp_watch(ctx):
+        with fp_watch(ctx) as fpw:
             if rng.integers(0, 4) == 0:
                 # the caller post-processes a first result in place and asks the same object again: what comes back
                 # must be a recreation of the averages, not the caller's modified numbers
@@ -207,6 +207,11 @@ def run_case(ctx, kind_, idx):
         ctx.exception("raised_on_admissible_input", cid, e, {"case": info})
         return
     ctx.judged()
+    if fpw.tripped:
+        # the values are judged below; a caller running with warnings as errors or numpy.seterr(all="raise") would not
+        # have got any - the unchanged code answers ordinary finite input without a single floating-point warning
+        ctx.violation("floating_point_warning_on_ordinary_input", cid, {"warnings": fpw.tripped[:4], "case": info})
+        return
     bad = R.well_formed(xs, ys, len(x), n)
     if bad:
         ctx.violation("malformed_output", cid, {"problem": bad, "case": info})
